@@ -133,11 +133,13 @@ func (f *freshnessCalculator) CalculateFreshness(
 
 	// Freshness lifetime (private cache: ignore s-maxage)
 	usefulLife := time.Duration(0)
+	hasMaxAge := false
 	if maxAge, ok := resCC.MaxAge(); ok && maxAge >= 0 {
 		usefulLife = maxAge // Response is fresh for max-age seconds
+		hasMaxAge = true    // max-age=0 is an explicit lifetime too (RFC 9111 §4.2.1)
 	}
 
-	if usefulLife == 0 {
+	if !hasMaxAge {
 		expires, found, valid := entry.ExpiresHeader()
 		switch {
 		case valid && expires.After(date):
